@@ -1,6 +1,7 @@
 import Huginn.Model.H2Message
 import Huginn.Spec.H2Message
 import Huginn.Spec.Hpack
+import Huginn.Spec.Akamai
 import Huginn.Lemmas.H2Frames
 import Huginn.Lemmas.Akamai
 import Huginn.Lemmas.H2Message
@@ -614,6 +615,41 @@ theorem kf_listCase_witness :
     KF.C16.listCase Gen.H2Lists.requestOptionalHeaders Gen.H2Lists.requestSkipValueHeaders (requestOf hs).headers = true ∧
     (Hpack.crate.dec Hpack.crate.init blockGood).1 = some hs ∧
     (processorsParseRequest Hpack.crate (fun _ => none) wGood).map obsReqCore ≠ some (obsRequestOf (fun _ => none) hs) := by
+  decide
+
+
+/-! non-vacuity of the response and observable theorems -/
+
+-- HEADERS (END_HEADERS) stream 1: :status 200 (static 8), x-a: b (literal)
+private def wResp : Bytes := [0, 0, 8, 1, 4, 0, 0, 0, 1, 0x88, 0x00, 0x03, 120, 45, 97, 0x01, 98]
+private def xa : Bytes := [120, 45, 97]
+
+example :
+    let frames := parseFrames wResp
+    let hs : List Field := [(nStatus, [50, 48, 48]), (xa, [98])]
+    h2CanParse wResp = true ∧
+    (primaryBlock frames).map (fun x => x.2.2) = some (.complete [0x88, 0x00, 0x03, 120, 45, 97, 0x01, 98]) ∧
+    (Hpack.crate.dec Hpack.crate.init [0x88, 0x00, 0x03, 120, 45, 97, 0x01, 98]).1 = some hs ∧
+    legalResponseFields hs = true ∧ KF.C16.emptyValue false hs = false ∧
+    KF.C16.headersPaddedOrPriority frames = false ∧ KF.C16.headersContinued frames = false ∧
+    KF.C16.listCase Gen.H2Lists.responseOptionalHeaders Gen.H2Lists.responseSkipValueHeaders (responseOf hs).headers = false ∧
+    (processorsParseResponse Hpack.crate wResp).map obsRespCore = some (obsResponseOf hs) ∧
+    (obsResponseOf hs).status = 200 ∧
+    renderSig (obsResponseOf hs).horder (obsResponseOf hs).habsent (obsResponseOf hs).expsw =
+      Spec.Akamai.ascii "2:x-a=[b]:Content-Type,Connection,Keep-Alive,Accept-Ranges,Date:???" := by decide
+
+-- request: :method GET, :path /, :scheme https, accept: */* — no header of the p0f lists
+private def wPlain : Bytes :=
+  pre ++ [0, 0, 15, 1, 5, 0, 0, 0, 1, 0x82, 0x84, 0x87, 0x00, 0x06, 97, 99, 99, 101, 112, 116, 0x03, 42, 47, 42]
+
+example :
+    let hs : List Field := [(nMethod, [71, 69, 84]), (nPath, [47]), (nScheme, [104, 116, 116, 112, 115]), (acc, star)]
+    hypsHold wPlain = true ∧
+    KF.C16.listCase Gen.H2Lists.requestOptionalHeaders Gen.H2Lists.requestSkipValueHeaders (requestOf hs).headers = false ∧
+    (processorsParseRequest Hpack.crate (fun _ => none) wPlain).map obsReqCore = some (obsRequestOf (fun _ => none) hs) ∧
+    renderSig (obsRequestOf (fun _ => none) hs).horder (obsRequestOf (fun _ => none) hs).habsent
+        (obsRequestOf (fun _ => none) hs).expsw =
+      Spec.Akamai.ascii "2:accept=[*/*]:Host,User-Agent,Connection,Accept-Encoding,Accept-Language,Accept-Charset,Keep-Alive:???" := by
   decide
 
 /-! ## 6. the serialising direction: every header list, every encoding, any control frames first -/
